@@ -185,6 +185,44 @@ Proof.
     intros i Hi1 Hi2. rewrite (I2 i Hi1 Hi2). now apply T4.
 Qed.
 
+(* one newCounter / Add grows the file by at most two pages *)
+Lemma step_growth s o : Inv s -> small s -> count_op o ->
+  len (w_bs (snd (step s o))) <= len (w_bs s) + 32768.
+Proof.
+  intros HI Hs Hc. pose proof HI as [(m & kv & limit & tbl & Hread) Hh Ht].
+  assert (Hnc : forall name, len (snd (new_counter (w_meta s) (w_hdr s) (w_bs s) name)) <= len (w_bs s) + 32768).
+  { intro name. destruct (N.eqb_spec (len name) 0) as [E0|E0].
+    - unfold new_counter. cbv zeta. destruct (N.eqb_spec (len name) 0); [cbn [snd]; lia|contradiction].
+    - destruct (N.ltb_spec 4096 (len name)) as [El|El].
+      + unfold new_counter. cbv zeta. change c_maxNameLen with 4096. destruct (N.eqb_spec (len name) 0); [contradiction|].
+        destruct (N.ltb_spec 4096 (len name)); [cbn [snd]; lia|lia].
+      + pose proof (new_counter_wf (w_meta s) (w_hdr s) (w_bs s) m kv limit tbl name Hread Hh Ht Hs ltac:(lia)) as P.
+        destruct P as (off & limit' & tbl' & rcd & _ & _ & _ & _ & Hlen2 & _). exact Hlen2. }
+  destruct o as [name|name d|e|mm]; cbn [count_op] in Hc; try contradiction; cbn [step].
+  - specialize (Hnc name). destruct (new_counter _ _ _ name) as [r bs']. cbn [snd w_bs] in *. exact Hnc.
+  - specialize (Hnc name). destruct (new_counter _ _ _ name) as [r bs'] eqn:En. cbn [snd] in Hnc.
+    destruct r; cbn [snd w_bs]; try exact Hnc.
+    (* Add keeps the length *)
+    unfold add_at.
+    destruct (N.leb_spec (off + 8) (len bs')) as [Hle|Hgt].
+    + rewrite len_put by (rewrite len_le64; exact Hle). exact Hnc.
+    + (* cannot happen (the cell lies in the file); the bound holds anyway *)
+      destruct (N.eqb_spec (len name) 0) as [E0|E0].
+      { unfold new_counter in En. cbv zeta in En. destruct (N.eqb_spec (len name) 0); [discriminate|contradiction]. }
+      destruct (N.ltb_spec 4096 (len name)) as [El|El].
+      { unfold new_counter in En. cbv zeta in En. change c_maxNameLen with 4096 in En.
+        destruct (N.eqb_spec (len name) 0); [contradiction|].
+        destruct (N.ltb_spec 4096 (len name)); [discriminate|lia]. }
+      pose proof (new_counter_wf (w_meta s) (w_hdr s) (w_bs s) m kv limit tbl name Hread Hh Ht Hs ltac:(lia)) as P.
+      rewrite En in P. cbn [fst snd] in P.
+      destruct P as (off' & limit' & tbl' & rcd & Eo & R' & _ & _ & _ & _ & _ & _ & Hin & Eoff & _).
+      injection Eo as <-.
+      apply spec_read_inv in R'. destruct R' as (_ & _ & _ & _ & _ & H3 & _ & _ & Hft & _).
+      pose proof (wf_record_in _ _ _ _ _ Hft Hin) as [Hri _].
+      pose proof (rec_in_facts _ _ _ _ Hri H3) as (_ & _ & F3 & F4 & _).
+      pose proof (rec_size_bounds _ F3). unfold r_end in F4. lia.
+Qed.
+
 (* writes of the creation sequence on a file that is already there *)
 Lemma write_at_prefix_id bs h : has_prefix bs h = true -> write_at bs 0 h = bs.
 Proof.
